@@ -39,6 +39,23 @@ def big_requests():
     return out
 
 
+def pattern_stress():
+    """KEYS / SCAN MATCH with many '*' groups against a long key that almost matches: a matcher that backtracks over every
+    '*' needs time exponential in the number of groups (the connection stalls); the specification matches in polynomial time."""
+    key = "a" * 60
+    pats = ["*a" * 24 + "*b", "*a" * 24 + "*", "a*" * 20 + "b", "?*" * 16 + "b", "*" * 40 + "b", "*a" * 12 + "?" * 10 + "*b", "*a*" * 15 + "c*"]
+    out = []
+    for handler in ("ref", "example"):
+        for i, pat in enumerate(pats):
+            x = ({"cls": "well", "name": "KEYS", "args": [tok("str", pat)]} if i % 3 else
+                 {"cls": "well", "name": "SCAN", "args": [dict(tok("int", ""), n=0), dict(tok("word", ""), w="MATCH"), tok("str", pat)]})
+            out.append({"handler": handler, "tracer": False, "nconns": 1, "steps": [{"c": 0, "op": "send", "chunking": "whole", "reqs": [
+                {"cls": "setup", "name": "SET", "args": [tok("key", key), tok("str", "v1")]},
+                {"cls": "echo", "name": "ECHO", "args": [tok("str", "t1")]}, x,
+                {"cls": "echo", "name": "ECHO", "args": [tok("str", "t2")]}]}]})
+    return out
+
+
 def run(ctx):
     P = THOROUGH if ctx.tier == "thorough" else QUICK
     ctx.build()
@@ -71,6 +88,7 @@ def run(ctx):
                     sc["steps"][0]["reqs"].insert(0, setup)
                 scenarios.append(sc)
                 nstore += 1
+        scenarios += pattern_stress()
     ctx.stage("generate")
     accepted, scs, lines = connlib.run_scenarios(ctx, scenarios, "c03")
     groups = connlib.report(ctx, accepted, scs, lines, None)
